@@ -1161,6 +1161,7 @@ def spec_array(c, self, dtype=None, copy=None):
 
 
 CONTRACTS[-1].real_call = array_real
+CONTRACTS[-1].forcing_allowed = True      # np.asarray(signal) is the explicit conversion to a NumPy array
 
 
 # --------------------------------------------------------------------------- Dask container helpers (C09, C16)
@@ -1196,6 +1197,8 @@ def spec_to_dask(c, self):
 
 
 def spec_rechunk(c, self, chunks=None, **kwargs):
+    # Dask's "auto" chunking divides by the array size: an empty signal is outside what it defines
+    c.raise_if(V.eq(c.view(self).N, 0), "ANY", "rechunk of an empty signal (dask auto-chunking undefined)")
     return _container(c, self, "dask")
 
 
